@@ -264,8 +264,10 @@ func walkInstr(s ast.Stmt, root string) Instr {
 			}
 			deferred = true
 		case *ast.AssignStmt:
-			// trailing = &c : remembered, walked after the switch and before f(nil)
-			if len(d.Lhs) != 1 || len(d.Rhs) != 1 || src(d.Rhs[0]) != "&"+v || d.Tok != token.ASSIGN {
+			// trailing = node.F[i:] : this comment and all later ones are remembered and
+			// walked after the switch, before f(nil)
+			if len(d.Lhs) != 1 || len(d.Rhs) != 1 || d.Tok != token.ASSIGN || s.Key == nil ||
+				src(d.Rhs[0]) != src(s.X)+"["+src(s.Key)+":]" {
 				return unknown
 			}
 			trailVar = src(d.Lhs[0])
@@ -354,15 +356,15 @@ func walkFacts(p *pkgInfo) *WalkFacts {
 				}
 			}
 		case *ast.IfStmt:
-			if wf.TrailVar != "" && src(s.Cond) == wf.TrailVar+" != nil" && len(s.Body.List) == 1 && src(s.Body.List[0]) == "Walk("+wf.TrailVar+", f)" && s.Else == nil {
-				wf.TrailWalked = true
-			} else if src(s.Cond) == "!f(node)" && len(s.Body.List) == 1 && src(s.Body.List[0]) == "return" {
+			if src(s.Cond) == "!f(node)" && len(s.Body.List) == 1 && src(s.Body.List[0]) == "return" {
 				wf.EntryCheck = true
 			} else {
 				wf.FrameOther = append(wf.FrameOther, src(s))
 			}
 		case *ast.ExprStmt:
-			if src(s) == "f(nil)" {
+			if wf.TrailVar != "" && src(s) == "walkComments("+wf.TrailVar+", f)" && wf.NilCall == 0 {
+				wf.TrailWalked = true
+			} else if src(s) == "f(nil)" {
 				if s != fd.Body.List[len(fd.Body.List)-1] {
 					wf.FrameOther = append(wf.FrameOther, "f(nil) is not the last statement")
 				}
